@@ -100,7 +100,7 @@ def agnostic_configs():
                         cfg["warm_connect"] = True
                     out.append(cfg)
     # partially connected client: the request must go to a connected broker first, whatever the shuffle says
-    cluster = {"brokers": [1, 2, 3], "topics": {"t": {"0": 1}}}
+    cluster = {"brokers": [1, 2, 3], "topics": {"t": {"0": 1, "1": 2, "2": 3}}}
     for connected in ([1], [2], [3], [1, 2], [2, 3], [1, 3]):
         for rot in range(3):
             out.append({"cluster": cluster, "discovery": False, "timeout_ms": 2000,
